@@ -611,6 +611,7 @@ fn c05_gen() -> GenCfg {
     g.custom_keys = false;
     g.item_renames = true;
     g.foreign_types = true;
+    g.keyword_item_names = true; // `Type`, `Protocol`: Swift escapes them, with and without a prefix
     g
 }
 fn c05_nontrivial(c: &ProgCase) -> bool {
